@@ -83,7 +83,8 @@ def _ix(r, bools, ints, w, depth):
 
 def gen_g(r, name):
     """(src, params [(name, type)], args [(name, type)], ret, template, defs)"""
-    t = wchoice(r, [("mix", 5), ("loop_sum", 1), ("bool_list", 1.2), ("lookup", 1), ("tuple", 1), ("const_index", 0.5), ("range", 0.4), ("with_def", 1.5), ("ifstmt", 1), ("list_tuples", 0.5)])
+    t = wchoice(r, [("mix", 5), ("loop_sum", 1), ("bool_list", 1.2), ("lookup", 1), ("tuple", 1), ("const_index", 0.5), ("range", 0.4), ("with_def", 1.5), ("ifstmt", 1), ("list_tuples", 0.5),
+                    ("builtins", 1.5), ("two_lists", 0.8), ("inner_def", 1.2), ("minmax", 0.6)])
     defs = []
     if t == "mix":
         # 1-4 parameters interleaved anywhere in the signature with 1-3 real arguments
@@ -127,6 +128,34 @@ def gen_g(r, name):
         else:
             i, j = r.randrange(n), r.randrange(n)
             src = f"def {name}(a: bool, p: Parameter[Qlist[bool, {n}]]) -> bool:\n    return (p[{i}] and a) or p[{j}]\n"
+    elif t == "builtins":
+        # any / all / len over a list parameter, mixed with a real argument
+        n = r.randint(2, 4)
+        params, args, ret = [("p", f"Qlist[bool, {n}]")], [("a", "bool")], "bool"
+        form = r.randrange(5)
+        body = ["return any(p) and a", "return all(p) or a", "return (any(p) ^ a) or all(p)", "return a if any(p) else not a", "return (len(p) == %d) and (a or any(p))" % n][form]
+        sig = [f"p: Parameter[Qlist[bool, {n}]]", "a: bool"]
+        if r.random() < 0.5:
+            sig.reverse()
+        src = f"def {name}({', '.join(sig)}) -> bool:\n    {body}\n"
+    elif t == "two_lists":
+        n = r.randint(2, 3)
+        params, args, ret = [("l", f"Qlist[bool, {n}]"), ("m", f"Qlist[bool, {n}]")], [("a", "bool")], "bool"
+        op1, op2 = r.choice(["or", "and", "^"]), r.choice(["^", "or", "and"])
+        src = (f"def {name}(l: Parameter[Qlist[bool, {n}]], a: bool, m: Parameter[Qlist[bool, {n}]]) -> bool:\n    r = a\n    for x in l:\n        for y in m:\n"
+               f"            r = r {op2} (x {op1} y)\n    return r\n")
+    elif t == "minmax":
+        n = r.randint(2, 3)
+        params, args, ret = [("p", f"Qlist[Qint[2], {n}]")], [("x", "Qint[2]")], "bool"
+        f_ = r.choice(["max", "min"])
+        src = f"def {name}(p: Parameter[Qlist[Qint[2], {n}]], x: Qint[2]) -> bool:\n    return x {r.choice(['<', '==', '>='])} {f_}(p)\n"
+    elif t == "inner_def":
+        pt = r.choice(["bool", "Qint[2]"])
+        params, args, ret = [("k", pt)], [("a", "bool"), ("b", "bool")], "bool"
+        fn = r.choice(["inc", "neg", "g"])
+        use = "k" if pt == "bool" else f"(k == {r.randrange(4)})"
+        src = (f"def {name}(a: bool, k: Parameter[{pt}], b: bool) -> bool:\n    def {fn}(x: bool, y: bool) -> bool:\n        return (not x) ^ y\n"
+               f"    return {fn}(a, b) ^ {use}\n")
     elif t == "lookup":
         params, args, ret = [("p", "Qlist[Qint[2], 4]")], [("x", "Qint[2]")], "Qint[2]"
         src = f"def {name}(p: Parameter[Qlist[Qint[2], 4]], x: Qint[2]) -> Qint[2]:\n    return p[x]\n"
@@ -239,6 +268,64 @@ def injected(src, values):
     names = [a.arg for a in fd.args.args if a.arg in values]
     fd.args.args = [a for a in fd.args.args if a.arg not in values]
     pre = [ast.Assign(targets=[ast.Name(id=n, ctx=ast.Store())], value=literal(values[n])) for n in names]
+    fd.body = pre + fd.body
+    return ast.unparse(ast.fix_missing_locations(t)) + "\n"
+
+
+BUILTIN_QINT = (2, 3, 4, 5, 6, 7, 8, 12, 16)
+
+
+def narrower_than_declared(params, values):
+    """does some Qint leaf value need fewer bits than its declared width (the F-C08-1 situation)?"""
+    from m_c10 import _split_top
+
+    def leaves(ty, v):
+        ty = ty.strip()
+        w = width(ty)
+        if w is not None:
+            if isinstance(v, int) and not isinstance(v, bool):
+                yield w, v
+            return
+        m = re.match(r"^(Tuple|Qlist|List)\[(.*)\]$", ty)
+        if not m or not isinstance(v, list):
+            return
+        parts = _split_top(m.group(2))
+        if m.group(1) == "Tuple":
+            elts = parts
+        elif m.group(1) == "Qlist" and len(parts) == 2 and parts[1].isdigit():
+            elts = [parts[0]] * len(v)
+        else:
+            elts = [parts[0]] * len(v)
+        for et, ev in zip(elts, v):
+            yield from leaves(et, ev)
+
+    for n, t in params:
+        for w, v in leaves(t, values.get(n)):
+            if max(2, int(v).bit_length()) < w:
+                return True
+    return False
+
+
+def injected_typed(src, values, params):
+    """the prepended-assignment form with scalar Qint parameters written as typed constants
+    (p = Qint3(2)); None when some parameter cannot be written that way"""
+    t = ast.parse(src)
+    fd = t.body[0]
+    ptypes = dict(params)
+    pre = []
+    for a in fd.args.args:
+        if a.arg not in values:
+            continue
+        w = width(ptypes.get(a.arg, ""))
+        v = values[a.arg]
+        if w is not None:
+            if w not in BUILTIN_QINT or not isinstance(v, int) or isinstance(v, bool):
+                return None
+            val = ast.Call(func=ast.Name(id=f"Qint{w}", ctx=ast.Load()), args=[ast.Constant(value=v)], keywords=[])
+        else:
+            val = literal(v)
+        pre.append(ast.Assign(targets=[ast.Name(id=a.arg, ctx=ast.Store())], value=val))
+    fd.args.args = [a for a in fd.args.args if a.arg not in values]
     fd.body = pre + fd.body
     return ast.unparse(ast.fix_missing_locations(t)) + "\n"
 
@@ -672,6 +759,7 @@ def run_segment(plan, ctx, detail=False, table=None):
                         probe("literal_form_" + ("agrees" if (lit_tb[0] == hdr and lit_tb[1] == rows) else "differs_(front_end_matter)"))
                     # B1: the unbound program as plain Python, parameters set to v
                     b1 = None
+                    pyf, pv = None, {}
                     if violation is None and not ua["tmpl"].startswith("corpus"):
                         try:
                             dec = decode_rows(hdr, rows, ua["args"], ua["ret"])
@@ -709,9 +797,25 @@ def run_segment(plan, ctx, detail=False, table=None):
                                 sel = [[row[i] for i in keep] for row in tr if all(row[th.index(bn)] == bv for bn, bv in want.items())]
                                 agree = [th[i] for i in keep] == hdr and sel == rows
                         if agree is False:
-                            soft.append(viol("B1", op, ["bound function differs from the Python value although the same program with the parameter kept as an argument of its declared type agrees with it"], at=rec.get("b1_at"), values=a["values"], role_override="declared-type-dropped"))
-                            soft[-1]["role"] = "declared-type-dropped"
-                            probe("declared_type_dropped_(known_finding_class)")
+                            # binding introduced the difference. Is it the known one -- a Qint value compiled at
+                            # its minimal width instead of the declared one? Only if some Qint leaf really is
+                            # narrower than declared AND the program with *typed* constants prepended agrees
+                            # with Python where that form can be built; anything else is a violation of its own
+                            narrow = narrower_than_declared(ua["params"], a["values"])
+                            typed_ok = None
+                            tsrc = injected_typed(ua["src"], a["values"], ua["params"])
+                            if narrow and tsrc is not None:
+                                tt_tb, tt_state = compiled_table("inj_typed", lambda: tsrc)
+                                if tt_tb is not None:
+                                    d2 = decode_rows(tt_tb[0], tt_tb[1], ua["args"], ua["ret"])
+                                    typed_ok = d2 is not None and all(crop(pyf(**dict(ins, **pv)), ua["ret"]) == got for ins, got in d2)
+                            if narrow and typed_ok is not False:
+                                v = viol("B1", op, ["bound function differs from the Python value although the same program with the parameter kept as an argument of its declared type agrees with it"], at=rec.get("b1_at"), values=a["values"])
+                                v["role"] = "declared-type-dropped"
+                                soft.append(v)
+                                probe("declared_type_dropped_(known_finding_class)")
+                            else:
+                                violation = viol("B1", op, ["bound function differs from the Python value; the same program with the parameters kept as typed arguments agrees with it, and no parameter value is narrower than its declared type"], at=rec.get("b1_at"), values=a["values"], order=a["order"])
                         else:
                             probe("frontend_disagrees_with_python_with_or_without_binding_(C01_matter)")
             # ---- B3: the unbound objects and their callees are what they were
